@@ -23,6 +23,7 @@ fn pool() -> &'static Vec<String> {
             "0", "1", "2", "3", "7", "10", "0.1", "0.2", "0.3", "1.10", "3.30", "0.5", ".5", "5.", "007.500", "0.0000000000000000000000000001", "0.0000000000000000000000000003", "79228162514264337593543950335",
             "79228162514264337593543950334", "39614081257132168796771975168", "7922816251426433759354395033.5", "7.9228162514264337593543950335", "0.3333333333333333333333333333", "1000000000000000",
             "123456789012345678901234567", "1234567890123456789012345678", "99999999999999999999999999999", "0.9999999999999999999999999999", "281474976710656", "4294967296", "1.5", "2.25",
+            "18446744073709551616", "4294967296000000000000", "1.0000000000000000000000000001", "2.0000000000000000000000000002", "2.00000000000000000000000002",
         ]
         .iter()
         .map(|s| s.to_string())
@@ -49,6 +50,30 @@ fn binary_cases() -> &'static Vec<String> {
 }
 
 /// random decimal literal: 1..29 significant digits, the point anywhere
+/// a op1 b op2 c (also with the right pair bracketed): re-association and fused evaluation (mul_div, (a*c)/b) change
+/// which intermediate has to be representable
+fn triple_cases() -> &'static Vec<String> {
+    static CELL: OnceLock<Vec<String>> = OnceLock::new();
+    CELL.get_or_init(|| {
+        let small = ["1", "2", "3", "7", "10", "0.1", "0.5", "1.5", "100", "15", "0.3333333333333333333333333333", "0.0000000000000000000000000001", "79228162514264337593543950335", "4294967296", "0.000000000000003", "2.0000000000000000000000000002"];
+        let mut v = Vec::new();
+        let mut firsts: Vec<String> = pool().clone();
+        firsts.extend(["7000000000000000000000000000", "0.000000000000002", "2.0000000000000000000000000002", "100", "15"].iter().map(|s| s.to_string()));
+        for a in &firsts {
+            for b in small {
+                for c in small {
+                    for op1 in ["+", "-", "*", "/", "%"] {
+                        for op2 in ["+", "-", "*", "/", "%"] {
+                            v.push(format!("{}{}{}{}{}", a, op1, b, op2, c));
+                        }
+                    }
+                }
+            }
+        }
+        v
+    })
+}
+
 pub fn gen_literal(c: &mut dyn Choices) -> String {
     if c.below(8) == 0 {
         return pool()[c.below(pool().len() as u32) as usize].clone();
@@ -107,7 +132,7 @@ impl Prop for C07Prop {
         "C07"
     }
     fn rule(&self) -> String {
-        "eval_decimal expressions over + - * unary minus (random trees, depth <=5) and single a/b, a%b, mod(a,b) nodes, on decimal literals with 1..29 significant digits, scale 0..28, magnitudes 1e-28..7.9e28 (boundary literals with 27/28/29 digits, 0.1/0.2-style fractions, leading/trailing zeros, .5 and 5. forms); long chains (2..512 operands of + - * / % with 0.1, 1.5, MAX and 1e-28 operands: 0.1+0.1+… 130 terms is exactly 13); exhaustive block: 32-literal pool^2 x {+ - * / % mod} with signs. Oracle: exact decimal arithmetic on big integers: every intermediate representable (coefficient < 2^96, scale <= 28) => result must equal the exact value; intermediate beyond the Decimal range => Err; in range but needing rounding => unspecified (counted); division exact when representable else within 1e-27*max(1,|a/b|) (checked by cross-multiplication); zero divisor => Err. non-trivial = a literal with a fractional digit, or >=20 significant digits, or an Err outcome; distinct by input.".into()
+        "eval_decimal expressions over + - * unary minus (random trees, depth <=5) and single a/b, a%b, mod(a,b) nodes, on decimal literals with 1..29 significant digits, scale 0..28, magnitudes 1e-28..7.9e28 (boundary literals with 27/28/29 digits, 0.1/0.2-style fractions, leading/trailing zeros, .5 and 5. forms); long chains (2..512 operands of + - * / % with 0.1, 1.5, MAX and 1e-28 operands: 0.1+0.1+… 130 terms is exactly 13); exhaustive blocks: 37-literal pool^2 x {+ - * / % mod} with signs; triples a op1 b op2 c (42 x 16 x 16 operands x 25 operator pairs: fused or re-associated evaluation changes which intermediate must be representable). Oracle: exact decimal arithmetic on big integers: every intermediate representable (coefficient < 2^96, scale <= 28) => result must equal the exact value; intermediate beyond the Decimal range => Err; in range but needing rounding => unspecified (counted); division exact when representable else within 1e-27*max(1,|a/b|) (checked by cross-multiplication); zero divisor => Err. non-trivial = a literal with a fractional digit, or >=20 significant digits, or an Err outcome; distinct by input.".into()
     }
     fn assumptions(&self) -> Vec<String> {
         vec!["harness/src/big.rs (hand-written bigint) is trusted; it is self-tested against u128 arithmetic and by multiplication/division identities".into()]
@@ -115,6 +140,7 @@ impl Prop for C07Prop {
     fn subs(&self, tier: Tier) -> Vec<Sub> {
         vec![
             Sub { name: "binary", kind: SubKind::Enum { count: binary_cases().len() as u64 } },
+            Sub { name: "triples", kind: SubKind::Enum { count: triple_cases().len() as u64 } },
             Sub { name: "long", kind: SubKind::Enum { count: super::long::all(true).iter().filter(|x| x.0 == Ev::Dec).count() as u64 } },
             Sub { name: "tree", kind: SubKind::Random { cases: tier.pick(300_000, 15_000_000), len: 400 } },
             Sub { name: "divrem", kind: SubKind::Random { cases: tier.pick(200_000, 10_000_000), len: 100 } },
@@ -124,6 +150,9 @@ impl Prop for C07Prop {
         if sub == "long" {
             let s = super::long::all(true).iter().filter(|x| x.0 == Ev::Dec).nth(idx as usize)?.1.clone();
             return Some(Case::new(Ev::Dec, s, Val::D(dec("0"))));
+        }
+        if sub == "triples" {
+            return Some(Case::new(Ev::Dec, triple_cases().get(idx as usize)?.clone(), Val::D(dec("0"))));
         }
         Some(Case::new(Ev::Dec, binary_cases().get(idx as usize)?.clone(), Val::D(dec("0"))))
     }
